@@ -83,6 +83,7 @@ func (fs *FileSystemOperation) Backup() error {
 }
 
 func (fs *FileSystemOperation) Restore() error {
+	verifhook.Event("fs.restore.begin")
 	fileSystemSnapshot, err := fs.createFileSystemBackUp()
 	if err != nil {
 		return err
